@@ -25,13 +25,19 @@ pub fn install_panic_hook() {
             "<non-string panic payload>".to_string()
         };
         let loc = info.location().map(|l| format!("{}:{}", l.file(), l.line())).unwrap_or_default();
-        LAST_PANIC.with(|p| *p.borrow_mut() = Some((msg, loc)));
+        // during thread exit the thread-local may already be gone: fall back to a process-wide slot
+        let rec = (msg, loc);
+        if LAST_PANIC.try_with(|p| *p.borrow_mut() = Some(rec.clone())).is_err() {
+            *LAST_PANIC_LATE.lock().unwrap_or_else(|e| e.into_inner()) = Some(rec);
+        }
     }));
 }
 
+static LAST_PANIC_LATE: std::sync::Mutex<Option<(String, String)>> = std::sync::Mutex::new(None);
+
 /// Message and location of the last panic seen by the hook on this thread.
 pub fn take_last_panic() -> Option<(String, String)> {
-    LAST_PANIC.with(|p| p.borrow_mut().take())
+    LAST_PANIC.try_with(|p| p.borrow_mut().take()).ok().flatten().or_else(|| LAST_PANIC_LATE.lock().unwrap_or_else(|e| e.into_inner()).take())
 }
 
 #[derive(Debug)]
@@ -366,4 +372,61 @@ pub struct UnitResult {
     pub max_ticks_per_byte_x100: u64,
     pub samples: Vec<serde_json::Value>,
     pub exhaustive: bool,
+}
+
+
+// ---------------------------------------------------------------------------------------------
+// decoding while a thread winds down: a decode issued from the destructor of another thread-local
+
+pub type DecodeFn = fn(&[u8]);
+
+struct ExitGuard {
+    work: RefCell<Option<(DecodeFn, Vec<u8>)>>,
+}
+
+impl Drop for ExitGuard {
+    fn drop(&mut self) {
+        if let Some((f, doc)) = self.work.borrow_mut().take() {
+            // the thread-locals of this thread are being destroyed, in reverse order of creation
+            let r = catch_unwind(AssertUnwindSafe(|| f(&doc)));
+            if r.is_err() {
+                let (msg, loc) = take_last_panic().unwrap_or_else(|| ("<panic>".into(), String::new()));
+                *EXIT_PANIC.lock().unwrap_or_else(|e| e.into_inner()) = Some((msg, loc));
+            }
+        }
+    }
+}
+
+thread_local! {
+    static EXIT_GUARD: ExitGuard = const { ExitGuard { work: RefCell::new(None) } };
+}
+
+static EXIT_PANIC: std::sync::Mutex<Option<(String, String)>> = std::sync::Mutex::new(None);
+
+/// Runs `f(doc)` from the destructor of a thread-local of a thread that is exiting. With
+/// `guard_first` the guard is created before the thread's first ordinary decode (so it is destroyed
+/// after whatever thread-locals that decode created), otherwise after it. Returns the panic
+/// (message, location) of the decode in the destructor, if any.
+pub fn decode_during_thread_exit(f: DecodeFn, doc: &[u8], guard_first: bool) -> Option<(String, String)> {
+    *EXIT_PANIC.lock().unwrap_or_else(|e| e.into_inner()) = None;
+    let doc = doc.to_vec();
+    let h = std::thread::Builder::new().stack_size(8 << 20).spawn(move || {
+        install_thread_panic_capture();
+        if guard_first {
+            EXIT_GUARD.with(|g| *g.work.borrow_mut() = Some((f, doc.clone())));
+            let _ = catch_unwind(AssertUnwindSafe(|| f(&doc)));
+        } else {
+            let _ = catch_unwind(AssertUnwindSafe(|| f(&doc)));
+            EXIT_GUARD.with(|g| *g.work.borrow_mut() = Some((f, doc.clone())));
+        }
+    });
+    if let Ok(h) = h {
+        let _ = h.join();
+    }
+    EXIT_PANIC.lock().unwrap_or_else(|e| e.into_inner()).take()
+}
+
+/// the panic hook is process-wide; LAST_PANIC is per thread and created on first use
+fn install_thread_panic_capture() {
+    LAST_PANIC.with(|p| *p.borrow_mut() = None);
 }
